@@ -118,6 +118,7 @@ impl Harness {
         let mut pokes: Vec<(usize, usize, u8)> = vec![]; // store, index, old base value
         let mut tag: Option<u64> = None;
         let mut script: Option<Vec<Vec<String>>> = None;
+        let mut elf_bytes: Vec<u8> = vec![];
         let toks: Vec<&str> = line.split_whitespace().collect();
         for t in &toks {
             if let Some(v) = t.strip_prefix("tag=") {
@@ -132,6 +133,7 @@ impl Harness {
             match k {
                 "id" => id = v.to_string(),
                 "tag" | "kind" | "ovf" => {}
+                "elf" => elf_bytes = unhex(v),
                 "pc" => self.cpu.verif_set_pc(hx(v) as u32),
                 "ccr" => self.cpu.verif_set_ccr(hx(v) as u8),
                 "opc" => self.cpu.verif_set_operating_pc(hx(v) as u32),
@@ -247,7 +249,15 @@ impl Harness {
                     "run" => cpu.run().map(|_| "ok".to_string()).map_err(|_| "err".to_string()),
                     "load" => {
                         let args = String::from_utf8(unhex(f.get(2).copied().unwrap_or(""))).unwrap();
-                        crate::elf::load(f[1].to_string(), cpu, args);
+                        let path = if f[1] == "@" {
+                            // the file travels in the case line (elf=<hex>): materialise it next to the output file
+                            let p = format!("{}.elf", std::env::var("KOGE29_VERIF_OUT").unwrap());
+                            std::fs::write(&p, &elf_bytes).unwrap();
+                            p
+                        } else {
+                            f[1].to_string()
+                        };
+                        crate::elf::load(path, cpu, args);
                         Ok("ok".to_string())
                     }
                     _ => panic!("unknown op [{}]", op),
